@@ -1160,3 +1160,65 @@ B("C10-deleted-check-inverted", "C10", "C10:R-C10.1:journal::manager::JournalMan
                     .is_deleted
                     .load(std::sync::atomic::Ordering::Acquire)
                 {""")
+
+# ======================================================================== C11
+B("C11-no-plus-one", "C11", "C11:R-C11.1:db::Database::recover:fetch_max", DB,
+  """                    let maybe_next_seqno = keyspace
+                        .tree
+                        .get_highest_seqno()
+                        .map(|x| x + 1)
+                        .unwrap_or_default();""",
+  """                    let maybe_next_seqno = keyspace
+                        .tree
+                        .get_highest_seqno()
+                        .unwrap_or_default();""")
+B("C11-skip-empty-memtables", "C11", "C11:R-C11.1:db::Database::recover:every-keyspace-considered", DB,
+  """                    db.supervisor.seqno.fetch_max(maybe_next_seqno);
+                    log::debug!("Database seqno is now {}", db.supervisor.seqno.get());""",
+  """                    if size > 0 {
+                        db.supervisor.seqno.fetch_max(maybe_next_seqno);
+                    }
+                    log::debug!("Database seqno is now {}", db.supervisor.seqno.get());""")
+B("C11-set-before-replay", "C11", "C11:R-C11.3:db::Database::recover:restored-after-replay", DB,
+  """        // Recover keyspaces
+        recover_keyspaces(&db, &meta_keyspace)?;
+""",
+  """        // Recover keyspaces
+        recover_keyspaces(&db, &meta_keyspace)?;
+        let restored_seqno = db.supervisor.seqno.get();
+""", )
+BREAK[-1]["edits"].append(dict(file=DB, old="""        db.supervisor
+            .snapshot_tracker
+            .set(db.supervisor.seqno.get());""", new="""        db.supervisor.snapshot_tracker.set(restored_seqno);"""))
+B("C11-set-is-store", "C11", "C11:R-C11.3:snapshot_tracker::SnapshotTracker::set", TRACKER,
+  """    pub fn set(&self, value: SeqNo) {
+        self.seqno.fetch_max(value);
+    }""",
+  """    pub fn set(&self, value: SeqNo) {
+        self.seqno.set(value);
+    }""")
+B("C11-sealed-no-restore", "C11", "C11:R-C11.2", REC,
+  """                db.supervisor.seqno.fetch_max(maybe_next_seqno);
+
+                log::debug!("Database seqno is now {}", db.supervisor.seqno.get());""",
+  """                let _ = maybe_next_seqno;
+
+                log::debug!("Database seqno is now {}", db.supervisor.seqno.get());""")
+B("C11-meta-remove-no-publish-plus1", "C11", "C11:R-C11.4", "src/meta_keyspace.rs",
+  "self.visible_seqno.fetch_max(seqno + 1);", "self.visible_seqno.fetch_max(seqno);")
+B("C11-workers-before-restore", "C11", "C11:R-C11.3:db::Database::recover:restored-before", DB,
+  """        db.supervisor
+            .snapshot_tracker
+            .set(db.supervisor.seqno.get());
+
+        db.supervisor.snapshot_tracker.gc();
+""",
+  """        db.supervisor.snapshot_tracker.gc();
+""")
+BREAK[-1]["edits"].append(dict(file=DB, old="""        log::trace!("Database recovery successful");
+""", new="""        db.supervisor
+            .snapshot_tracker
+            .set(db.supervisor.seqno.get());
+
+        log::trace!("Database recovery successful");
+"""))
